@@ -3,6 +3,8 @@ package main
 import (
 	"fmt"
 	"runtime"
+	"runtime/debug"
+	"strings"
 	"sync"
 	"sync/atomic"
 	"time"
@@ -46,6 +48,7 @@ type concCase struct {
 	*env
 	opN, srN []string
 	hist     []*cop
+	panics   []string
 	mu       sync.Mutex
 }
 
@@ -163,6 +166,14 @@ func storeModel(nOps, nSrs int, counter0 uint64) porcupine.Model {
 			return true, s
 		},
 	}
+}
+
+func firstLines(s string, n int) string {
+	ls := strings.Split(s, "\n")
+	if len(ls) > n {
+		ls = ls[:n]
+	}
+	return strings.Join(ls, "\n")
 }
 
 func idx(xs []string, x string) int {
@@ -303,6 +314,18 @@ func c12Concurrent(c *lib.Ctx) {
 			ready.Add(1)
 			go func(g int) {
 				defer wg.Done()
+				defer func() {
+					// a panic of store code on a handler goroutine would kill the process: report it
+					if rec := recover(); rec != nil {
+						st := string(debug.Stack())
+						if !strings.Contains(st, lib.RepoDir()+"/storage/") {
+							lib.HarnessBug("burst goroutine panicked in harness code: %v\n%s", rec, st)
+						}
+						s.mu.Lock()
+						s.panics = append(s.panics, fmt.Sprintf("%v\n%s", rec, firstLines(st, 24)))
+						s.mu.Unlock()
+					}
+				}()
 				ready.Done()
 				for !start.Load() {
 					runtime.Gosched()
@@ -315,6 +338,9 @@ func c12Concurrent(c *lib.Ctx) {
 		ready.Wait()
 		start.Store(true)
 		wg.Wait()
+		if len(s.panics) > 0 {
+			c.Fail("panic", s.witc("stack", s.panics[0]), "store code panicked on a goroutine delivering concurrent calls: %s", firstLines(s.panics[0], 1))
+		}
 		s.quiesce()
 		bursts++
 		ov := 0
